@@ -57,6 +57,7 @@ def make_search(mido, L, reps):
                 got = list(s.parser)
             except Exception as e:
                 s.fed.extend(chunk)
+                s.raised = True
                 return ('raised', e)
             s.fed.extend(chunk)
             s.out.extend(got)
@@ -66,6 +67,7 @@ def make_search(mido, L, reps):
             got = list(s.parser)
         except Exception as e:
             s.fed.append(b)
+            s.raised = True
             return ('raised', e)
         s.fed.append(b)
         s.out.extend(got)
@@ -99,8 +101,8 @@ def make_search(mido, L, reps):
             # stale partial message that survived the chunk shows up here.
             base_fed, base_out = list(s.fed), list(s.out)
             for nb in LOOKAHEAD:
-                s2 = build(hist + (b,))
                 try:
+                    s2 = build(hist + (b,))
                     s2.parser.feed_byte(nb)
                     s2.out.extend(s2.parser)
                 except Exception as e:
@@ -158,13 +160,16 @@ def make_search(mido, L, reps):
         return n
 
     def expand(s, hist, b):
+        if getattr(s, 'raised', False):
+            return False    # reported; a parser that raised is not explored on
         if isinstance(b, tuple):
             return False    # chunk feeds: checked with a one-byte lookahead
         if b >= 0x80:
             return True
         return b in reps and data_run(tuple(flat(hist)) + (b,)) <= L
 
-    return Search(build, ops, apply, check, key, expand=expand)
+    return Search(build, ops, apply, check, key, expand=expand,
+                  max_states=8000)
 
 
 # ---------------------------------------------------------------- (b) strings
